@@ -22,12 +22,12 @@ def rn(extra):
 
 
 def tree_h(tag, ns, ml, elem8=False, comb=False, tier="both", timeout=300):
-    defs = ["NS=%d" % ns, "ML=%d" % ml] + (["ELEM8"] if elem8 else []) + (["COMB"] if comb else [])
+    defs = ["NS=%d" % ns, "ML=%d" % ml] + (["ELEM8"] if elem8 else []) + ([comb if isinstance(comb, str) else "COMB"] if comb else [])
     return dict(name="tree.%s" % tag, src="C01/tree.c", defines=defs, rename_defs=BITS, unwind=max(2 * ns, ml) + 2,
                 units=["lib/tree_decode.c:build_tree,expand_queue,add_codes_with_length,read_next_entry,read_from_tree,init_tree"],
                 timeout=timeout, tier=tier, mem_gb=4, stubs=[SPECSTUB],
                 bounds="%s: %d symbols, lengths 0..%d, Kraft-complete%s, arbitrary symbol s; TreeElement %s; tree array 2*%d entries"
-                       % ("comb (permutation of 1..%d,%d)" % (ml, ml) if comb else "all length arrays", ns, ml,
+                       % (("comb 1..%d,%d at any rotation/reflection of the symbol order" % (ml, ml) if comb == "COMBROT" else "comb (any permutation of 1..%d,%d)" % (ml, ml)) if comb else "all length arrays", ns, ml,
                           "", "uint8_t (pm2)" if elem8 else "uint16_t (lh_new)", ns))
 
 
@@ -70,9 +70,9 @@ HARNESSES = [
     tree_h("6x5.u16", 6, 5),
     tree_h("6x5.u8", 6, 5, elem8=True),
     tree_h("8x6.u16", 8, 6, tier="thorough", timeout=1800),
-    tree_h("10x6.u16", 10, 6, tier="thorough", timeout=1800),
     tree_h("8x6.u8", 8, 6, elem8=True, tier="thorough", timeout=1800),
-    tree_h("comb17.u16", 17, 16, comb=True, tier="thorough", timeout=1800),
+    tree_h("comb17.u16", 17, 16, comb="COMBROT", tier="thorough", timeout=1800),
+    tree_h("comb8.u16", 8, 7, comb=True, tier="thorough", timeout=1800),
     tree_h("comb8.u8", 8, 7, elem8=True, comb=True, tier="thorough", timeout=1800),
     dict(name="tree.single.u16", src="C01/tree.c", entry="harness_single", defines=["NS=510"], rename_defs=BITS, unwind=2, unwindset={"init_tree.0": 1022, "harness_single.0": 5},
          units=["lib/tree_decode.c:set_tree_single,read_from_tree,init_tree"], timeout=120, stubs=[SPECSTUB],
@@ -140,10 +140,6 @@ HARNESSES = [
           {"read_code_table.0": 27, "read_code_table.1": 8, "harness_code.0": 34, "harness_code.1": 27, "harness_code.2": 27, "harness_code.3": 27, "harness_code.4": 8, "real_read_from_tree.0": 2},
           "read_code_table with NUM_CODES = 24 (template instantiated small): arbitrary n <= 24, arbitrary temp-symbol sequence 0..30 of at most 6 symbols, arbitrary bit fields (field-sequence model of the bit string), input ending after any field: all three zero-run classes incl. runs clipped at the table end",
           units="read_code_table,read_skip_count", extra_stubs=["read_from_tree(temp tree): arbitrary pre-drawn symbol sequence 0..30, consumed identically by the reference", "bit reader: field-sequence model (k-th read returns the low n bits of the k-th arbitrary field; widths logged and compared)"], tier="thorough", timeout=1800),
-    tab_h("code.full", "H_CODE", "harness_code", ["NC=24"], {"lib/tree_decode.c": ["build_tree", "read_from_tree"]},
-          {"read_code_table.0": 27, "read_code_table.1": 27, "harness_code.0": 34, "harness_code.1": 27, "harness_code.2": 27, "harness_code.3": 27, "harness_code.4": 27, "real_read_from_tree.0": 2},
-          "read_code_table with NUM_CODES = 24 (template instantiated small): arbitrary n <= 24, arbitrary temp-symbol sequence 0..30 of any length, arbitrary bit fields (field-sequence model of the bit string), input ending after any field: all three zero-run classes incl. runs clipped at the table end",
-          units="read_code_table,read_skip_count", extra_stubs=["read_from_tree(temp tree): arbitrary pre-drawn symbol sequence 0..30, consumed identically by the reference", "bit reader: field-sequence model (k-th read returns the low n bits of the k-th arbitrary field; widths logged and compared)"], tier="thorough", timeout=1800),
     tab_h("off4", "H_OFF", "harness_off", ["BS_N=4", "OB=4", "LENSTUB"], {"lib/tree_decode.c": ["build_tree"], "lib/lh_new_decoder.c": ["read_length_value"]},
           {"read_offset_table.0": 18, "harness_off.0": 18, "harness_off.1": 66, "harness_off.2": 18, "read_from_tree.0": 2},
           "read_offset_table with OFFSET_BITS 4 (-lh4/5-): every n 0..15, arbitrary length values, any alignment, truncation", units="read_offset_table", extra_stubs=["read_length_value: arbitrary pre-drawn value per call, no bits consumed, call positions logged (real function vs format: tables.len)"]),
@@ -196,6 +192,6 @@ HARNESSES = [
         ("p3", ["LENMAX=8", "C2V=261", "P2V=3"], "2 literals 'A'; copy length 8, offset symbol 3: distances 4..7 (overlapping copies)", "both"),
         ("p1", ["LENMAX=8", "C2V=258", "P2V=1", "C1V=0"], "2 literals 0x00; copy length 5, offset symbol 1: distance 1", "thorough"),
         ("p0", ["LENMAX=8", "C2V=256", "P2V=0", "C1V=255"], "2 literals 0xff; copy length 3, offset symbol 0: distance 0", "thorough"),
-        ("p13.l32", ["LENMAX=32", "C2V=285", "P2V=13"], "2 literals 'A'; copy length 32, offset symbol 13: distances 4096..8191", "thorough"),
+        ("p13.l16", ["LENMAX=16", "C2V=269", "P2V=13"], "2 literals 'A'; copy length 16, offset symbol 13: distances 4096..8191", "thorough"),
     ]
 ]
